@@ -9,64 +9,64 @@ TRUST = ("Trusted: rustc nightly's MIR construction and callee resolution for /r
          "listed, which are necessary conditions of the property, not the whole behavioural statement.")
 
 CLAIMS = {
- "C14": dict(cat="other", design="DESIGN.md §3 C14",
+ "C14": dict(cat="other", design="DESIGN.md §2 C14",
    text="Static write/read-discipline audit over the MIR of the serialisation and parse cones: no dropped io::Write::write count (write_all or retry loop only), every Result propagated, in-crate Write/Read adapters forward the inner count, input consumed only via read_exact/read_to_end. Universal over all sinks/sources because it speaks about every call site on the cone; it does not compute the bytes.",
    technique="MIR call-site audit on call-graph cones (who-may-call + result-discipline dataflow)"),
- "C18": dict(cat="proof", design="DESIGN.md §3 C18",
+ "C18": dict(cat="proof", design="DESIGN.md §2 C18",
    text="Complete abstract evaluation (bit-vector domain over 16/32 symbolic input bits, equality-switch refinement, interval predicates) of every FileMode conversion body in MIR; each obligation is discharged for all 65 536 words and all i32 values at once because every path of every body is enumerated in the abstract domain. A body that leaves the domain is reported, never passed.",
    technique="abstract interpretation of MIR over a symbolic bit-vector domain (complete path enumeration)",
    note="Trusted: rustc nightly MIR construction; soundness of rules/absint.py's bit-vector domain; POSIX S_IF* constants. No runtime execution of /repo code."),
- "C20": dict(cat="proof", design="DESIGN.md §3 C20",
+ "C20": dict(cat="proof", design="DESIGN.md §2 C20",
    text="Complete abstract evaluation of both TryFrom impls for Timestamp (closures inlined, Result combinators / duration_since / as_secs / chrono timestamp / checked narrowing modelled symbolically): the derived (instant range -> result) table must equal {before epoch -> Underflow, 0..=u32::MAX -> Ok(secs), beyond -> Overflow}; plus derived-ordering and use-site propagation checks. Any panic-capable construct or unmodelled call leaves the domain and is reported.",
    technique="abstract interpretation of MIR with symbolic interval predicates; impl-table check",
    note="Trusted: rustc nightly MIR; the std/chrono call models in rules/c20.py (duration_since, as_secs, timestamp, TryInto<u32>) and the Result plumbing models in rules/absint.py; exactness of std/chrono arithmetic."),
- "C02": dict(cat="other", design="DESIGN.md §3 C02",
+ "C02": dict(cat="other", design="DESIGN.md §2 C02",
    text="Path-sensitive reachability over verify_signature's MIR with a finite predicate abstraction (discriminant/is_ok/is_empty facts, first-iteration lemma): no abstract state returns Ok(()) without a Verifying::verify call and a propagated verify_digests; each verify call's verdict is binding and its signature/data arguments have the provenance the coverage table requires (header, header++payload for the legacy PGP tag); the pgp verifier's Ok returns are dominated by pgp::Signature::verify's Ok. Universal over all signature-header shapes and verifier verdict patterns; cryptographic soundness and the 'any modification is rejected' consequence are not decided.",
    technique="path-sensitive dataflow on MIR (predicate abstraction) + provenance terms + dominance"),
- "C03": dict(cat="other", design="DESIGN.md §3 C03",
+ "C03": dict(cat="other", design="DESIGN.md §2 C03",
    text="Every PartialEq comparison in verify_digests is classified by the tag getter feeding its declared side and a provenance term of the recomputed side (algorithm, hashed byte ranges in order); polarity, the mismatch edge's error, must-pass-through of the equal edge when the tag is present, the algorithm arm table and the closed set of error exits are decided on the CFG. Decides the structure of the iff for all packages; digest values are not computed.",
    technique="provenance terms + CFG must-pass-through / edge-removal reachability + arm tables"),
- "C08": dict(cat="other", design="DESIGN.md §3 C08",
+ "C08": dict(cat="other", design="DESIGN.md §2 C08",
    text="Provenance terms for every digest-carrying value on the build/sign/clear paths are compared with the oracle table (header SHA-256 of the very header stored, payload digest of the returned payload, alternate digest of the hashing writer around the compressor, file digest of the stored content); who-may-write rules ensure all archive bytes (entries and trailer) pass the hashing writer and nothing else writes into the compressor; the hashing io::Write adapter must hash exactly buf[..n] for the n the inner writer accepted and return that n. Decides provenance and ordering for all configurations, not digest values.",
    technique="provenance terms + who-may-write (mutable-borrow audit) + adapter dataflow rule"),
- "C10": dict(cat="other", design="DESIGN.md §3 C10",
+ "C10": dict(cat="other", design="DESIGN.md §2 C10",
    text="Effect footprint of sign/sign_with_timestamp/clear_signatures (every assignment and mutable borrow rooted at self) is exactly {metadata.signature}; the new signature header's provenance is SignatureHeaderBuilder::new() plus digest (plus the fresh signature) with nothing of the old header; the OpenPGP-algorithm -> legacy tag arm table and the issuer-count guard's operand provenance in signature_key_ids (both branches) are checked. These make header/payload immutable under any history and forbid stale signatures; which key verifies is a runtime/crypto question and is not decided.",
    technique="effect-footprint analysis + provenance terms + arm-table extraction"),
- "C04": dict(cat="other", design="DESIGN.md §3 C04",
+ "C04": dict(cat="other", design="DESIGN.md §2 C04",
    text="Complete audit of every panic-/abort-capable or allocating MIR construct (Assert terminators incl. overflow and bounds checks, unwrap/expect/panic/indexing/slice-precondition calls, allocation calls) on the call-graph cone of the read-side API. Each site must be discharged by an interval/guard argument, by infeasibility under a predicate abstraction, or by a reviewed allow-list entry whose precondition is re-checked mechanically; any other site - in particular any new one - is a violation. Also: loops over a decoded count must fail or consume input each iteration. Universal over all inputs because it covers every site; panics inside dependencies are trusted.",
    technique="call-graph cone + panic-site enumeration + interval/guard dataflow + predicate-abstraction infeasibility + checked allow-list"),
- "C17": dict(cat="other", design="DESIGN.md §3 C17",
+ "C17": dict(cat="other", design="DESIGN.md §2 C17",
    text="Same site audit as C04 over the cone of all public builder-side entry points, plus an abstract evaluation of Compressor::try_from per CompressionWithLevel variant with a symbolic level showing every path to flate2/liblzma/bzip2 constructors implies their accepted level range, plus result-discipline rules for Path decomposition in add_data and the capability error mapping. Three genuine panics (try_into().unwrap() on caller-supplied timestamps) are recorded as known findings.",
    technique="panic-site audit (as C04) + abstract interpretation with interval predicates for external partial functions"),
- "C12": dict(cat="other", design="DESIGN.md §3 C12",
+ "C12": dict(cat="other", design="DESIGN.md §2 C12",
    text="Taint-to-sink audit of Package::extract over MIR: every filesystem-modifying call on its cone is enumerated; the provenance term of its path argument must be the target itself or the Ok payload of the containment function applied to (target, package path); the containment function's Component arm table (.. and prefix -> error, only Normal names pushed), its who-may-write set and its symlink refusal (conditional on nothing but is-symlink and not-last) are checked; follow-capable calls on the final path must be dominated by symlink removal; panic-site audit of the cone; per-file-type arm table against the oracle. Universal over hostile packages because it covers every sink; filesystem races are out of scope.",
    technique="taint-to-sink provenance audit + sanitiser arm table + dominance + panic-site audit"),
- "C11": dict(cat="other", design="DESIGN.md §3 C11",
+ "C11": dict(cat="other", design="DESIGN.md §2 C11",
    text="Determinism-source audit over the MIR call-graph cone of PackageBuilder::build/build_and_sign: no iteration or Debug-formatting of a HashMap/HashSet (type-resolved from callee receiver types), a closed table of ambient inputs (only Timestamp::now at the two clamped sites), and for build time, per-file mtime and signature time the min(source_date, value) pattern with branch polarity plus consumer provenance being the clamped local. Universal over all runs/processes because it removes every seed- or clock-dependent source from the path; determinism inside compressors and pgp is trusted.",
    technique="type-resolved call-site audit on the build cone + clamp-pattern dataflow with polarity"),
- "C15": dict(cat="other", design="DESIGN.md §3 C15",
+ "C15": dict(cat="other", design="DESIGN.md §2 C15",
    text="Formatter/parser table agreement: CompressionType's Display (variant, literal) rows are looked up in FromStr's (literal, variant) rows; separators of the Evr/Nevra format templates (from the expanded AST) are compared with the characters the parsers split on; boundaries whose left part may contain the separator must be searched from the right (the left split of the NEVRA name is a recorded known finding); the normalised form's epoch operand is \"0\" exactly on the is_empty branch; panic-site audit of the parsing functions. Structural necessary conditions of the round trip, not the value-level equality.",
    technique="arm-table extraction + AST format-template join + provenance of split receivers + panic-site audit"),
- "C19": dict(cat="other", design="DESIGN.md §3 C19",
+ "C19": dict(cat="other", design="DESIGN.md §2 C19",
    text="Loop-invariance rule (every rejecting branch in the per-clause loop must be data-dependent on the clause), validation-dominates-construction with verbatim storage for every FileCaps construction, operator/flag character switch tables and the capability-name constant (decoded from the compiled constant) against the oracle, error mapping, and a panic-site audit of the validator. Decides the structural clauses for all strings; exact language equality with the grammar is not decided.",
    technique="loop-invariant-guard dataflow + dominance + switch-table / constant-table extraction"),
- "C01": dict(cat="other", design="DESIGN.md §3 C01",
+ "C01": dict(cat="other", design="DESIGN.md §2 C01",
    text="Sibling agreement between every parser and its writer over MIR: decoder chains (static widths) and write_all operands are compared slot by slot with each other and with the rpm format oracle; every consumed slot is stored in the field the writer replays, or replaced by a constant after a guard over all its bytes, or is a permitted difference; write_index emits only raw index fields; type-code tables compose to the identity; the store is the untouched remainder; one padding function, tabulated over all 8 residues by abstract evaluation. These are the structural necessary conditions of the byte-for-byte round trip for every accepted input.",
    technique="sibling wire-sequence extraction + provenance terms + arm tables + residue tabulation (abstract interpretation)"),
- "C16": dict(cat="proof", design="DESIGN.md §3 C16",
+ "C16": dict(cat="proof", design="DESIGN.md §2 C16",
    text="Structural proof that the reported offsets equal the byte counts PackageMetadata::write emits before each segment: static widths of every write_all operand summed per writer and matched with the coefficients of the size()/offset linear forms extracted from MIR; every Header construction/mutation site keeps num_entries == index_entries.len() and data_section_size == store.len(); writer and offsets call the same padding function; composition order equals offset order. All obligations are discharged on every run or the check fails.",
    technique="width summation + linear-form extraction + who-may-write size invariant + dominance",
    note="Trusted: rustc nightly MIR; Write::write_all contract; Vec::len/push semantics; absence of u32 overflow for parsed headers (established by Header::parse's checked arithmetic, re-checked by C04's allow-list precondition)."),
- "C05": dict(cat="other", design="DESIGN.md §3 C05",
+ "C05": dict(cat="other", design="DESIGN.md §2 C05",
    text="Table extraction over MIR against oracle tables: per-type arm table of the store decoder (decoder, width, count, NUL terminator), the variant sets each typed getter accepts, the (tag, getter) pairs of every public accessor through the helper functions and constant tag triples (rpm tag table), and the field-by-field provenance of Dependency / Scriptlet / ChangelogEntry / FileEntry values through zip positions; each string-list loop must step over the terminator. Decides that every accessor reads the right tag with the right type and position for every header.",
    technique="arm-table / switch-table extraction + provenance terms through zip positions + oracle join"),
- "C06": dict(cat="other", design="DESIGN.md §3 C06",
+ "C06": dict(cat="other", design="DESIGN.md §2 C06",
    text="Field-flow completeness and table agreement: every field of the builder state and of per-file / scriptlet / dependency records must occur in the provenance of a header entry or archive write; each (field, tag, data type) row at the IndexEntry::new sites must equal the oracle and be of a type the matching accessor's getter accepts; no reordering call on list inputs; exactly one push per per-file vector per file in the single file loop. Value-level path arithmetic (dirname/basename strings) is not decided.",
    technique="field def/use over provenance terms + table join with C05's accessor table + loop dominance"),
- "C07": dict(cat="other", design="DESIGN.md §3 C07",
+ "C07": dict(cat="other", design="DESIGN.md §2 C07",
    text="The metadata handed out with each archive entry must be selected through the entry's own identity (cpio name predicate or stripped file index); the newc header writer's field sequence and the reader's decoder sequence are compared positionally with each other and with the format oracle incl. all paddings; stripped-entry agreement; size source and read limit; single unconditional trailer with a shared constant; per-compression-type codec table (encoder, decoder, finish, header string, parser key).",
    technique="provenance terms + sibling sequence extraction + arm tables"),
- "C09": dict(cat="other", design="DESIGN.md §3 C09",
+ "C09": dict(cat="other", design="DESIGN.md §2 C09",
    text="Layout-algorithm and constant-table rules: every emitted header comes from from_entries; the tag sort dominates the layout loop and its comparator orders by tag; no tag is emitted twice on one path; per-type alignment / terminator / count arm tables; region tag provenance and placement; lead constants; rpmlib() requirement rows with their guarding conditions; cpio entry name/mode/size provenance - all against oracle tables from rpm's format documentation. Numeric non-overlap of offsets is not re-derived beyond the per-type table.",
    technique="dominance + arm-table extraction + provenance terms + oracle tables"),
 }
